@@ -225,6 +225,10 @@ func (x *Exec) intrinsic(fn *ssa.Function, args []Val, site string) Val {
 			x.traceConc(int64(idx[i]))
 		}
 		return SliceV{A: a, Len: n, Cap: n}
+	case "PermuteRange":
+		x.opts.PermuteRange = args[0].(BoolV).C
+		x.permCache = nil
+		return nil
 	case "Symbolic":
 		return cbool(true)
 	case "Concretize":
